@@ -12,7 +12,6 @@ import (
 	"strings"
 
 	"github.com/a-h/templ/generator"
-	parser "github.com/a-h/templ/parser/v2"
 
 	"verifharness/internal/core"
 	"verifharness/internal/drv"
@@ -188,7 +187,7 @@ func buildProbes(pl scriptPlan) (*scratch, map[string]string, map[string]string,
 	gen := map[string]string{}
 	bad := map[string]string{}
 	one := func(name, body string) {
-		tf, err := parser.ParseString("package probes\n\n" + body)
+		tf, err := parseTimed("package probes\n\n" + body)
 		if err != nil {
 			bad[name] = "templ parser: " + err.Error()
 			return
